@@ -484,7 +484,7 @@ class Campaign:
                 "inconclusive": inconclusive,
                 "per_harness": per_h,
                 "nonreproducible_aborts": self.nonrepro,
-                "known_findings_reported": [k["id"] for k, _ in self.known_hits],
+                "known_findings_reported": sorted(set(k["id"] for k, _ in self.known_hits)),
                 "notes": self.notes,
                 "build_s": round(build_s, 1),
             },
@@ -501,8 +501,11 @@ class Campaign:
         os.makedirs(os.path.join(VERIF, "evidence"), exist_ok=True)
         with open(os.path.join(VERIF, "evidence", self.pid + ".json"), "w") as f:
             json.dump(ev, f, indent=1)
+        by_id = {}
         for k, path in self.known_hits:
-            log("KNOWN-FINDING: property=%s %s (%s) replay=%s" % (self.pid, k["id"], k.get("what", ""), path))
+            by_id.setdefault(k["id"], (k, []))[1].append(path)
+        for kid, (k, paths) in sorted(by_id.items()):
+            log("KNOWN-FINDING: property=%s %s (%s) hits=%d replay=%s" % (self.pid, kid, k.get("what", ""), len(paths), paths[0]))
         seen = set()
         for harness, path, sig in self.violations:
             if path in seen:
